@@ -140,7 +140,7 @@ func scenTiming(out *scenOut, r *rng, thorough bool) {
 	var wg sync.WaitGroup
 	const slack = 300 * time.Millisecond
 	// three long periods first (seconds: whatever the library does differently for long waits), invoked at once
-	long := []time.Duration{2500 * time.Millisecond, 3 * time.Second, 2200 * time.Millisecond}
+	long := []time.Duration{2500 * time.Millisecond, 3 * time.Second, 2200 * time.Millisecond, 3 * time.Second, 2500 * time.Millisecond, 2200 * time.Millisecond}
 	for i := 0; i < n+len(long); i++ {
 		every := i%2 == 0
 		periods := []time.Duration{5 * time.Millisecond, 13 * time.Millisecond, 40 * time.Millisecond, 150 * time.Millisecond, 400 * time.Millisecond}
@@ -149,7 +149,7 @@ func scenTiming(out *scenOut, r *rng, thorough bool) {
 		wait := time.Duration(r.intn(int(2 * d)))
 		if i < len(long) {
 			d, wait = long[i], 0
-			phase = time.Duration(r.intn(400)) * time.Millisecond
+			phase = time.Duration(i*300+r.intn(200)) * time.Millisecond // spread over the period: some are created early in it, some late
 		}
 		wg.Add(1)
 		go func(i int) {
